@@ -10,7 +10,7 @@ From SP Require Import Bytes Consts Params Msgpack Errors Packets Rand Verify De
 From Coq Require Import ZifyN ZifyNat ZifyBool.
 From SP Require Import RandProofs.
 Import ListNotations.
-Open Scope string_scope.
+Local Open Scope string_scope.
 
 (* ---------- encodings of model values as Go values ---------- *)
 Definition g_version (v : version) : gval := VStruct [("Major", VInt (vmaj v)); ("Minor", VInt (vmin v))].
